@@ -1,5 +1,6 @@
-CONSTANTS LimbBits = 2  NLimbs = 3  PB = 2  MaxOps = 2  MaxPairs = 16  Bug = "RoundUpWraps"  Emit = FALSE
+CONSTANTS LimbBits = 2  NLimbs = 3  PB = 2  MaxOps = 2  Bug = "RoundUpWraps"  Emit = FALSE
   OpKinds = {"reserve", "mapregion", "identity"}
+  Budgets = {3}
   Props = {"C07"}
 CONSTANT Top <- MCTop6
 CONSTANT SizesFor <- MCSizesAll
